@@ -45,3 +45,53 @@ Print Assumptions C16_flush.
 Example C16_hyp_sat : exists s, Inv s /\ m_cache s <> None /\ m_db s <> [] /\
   s = fst (set_record (init_state true) (RAzks 1 1) false).
 Proof. eexists. split; [apply Inv_set; apply Inv_init|]. repeat split; discriminate. Qed.
+
+(* ---- the concurrent case: a read's cache fill against a write-through, any number of tasks,
+   every step of every task a scheduling point (CacheProto.v; TicketLocked = the protocol of the code) *)
+From Akd Require Import CacheProto.
+Close Scope N_scope.
+
+(* in every reachable state in which no write is in progress the cache holds nothing or what the data
+   layer holds *)
+Theorem C16_concurrent_coherent : forall d rs ws sched,
+  let s := prun TicketLocked (pinit d rs ws) sched in
+  PInv s /\ (p_started s = p_completed s -> p_cache s = None \/ p_cache s = Some (p_db s)).
+Proof. exact ticket_protocol_coherent. Qed.
+Print Assumptions C16_concurrent_coherent.
+
+Theorem C16_cached_read_is_current : forall d rs ws sched v,
+  let s := prun TicketLocked (pinit d rs ws) sched in
+  p_started s = p_completed s -> p_cache s = Some v -> v = p_db s.
+Proof. exact cached_read_is_current. Qed.
+Print Assumptions C16_cached_read_is_current.
+
+(* in any such state (the invariant holds in every reachable one) a read that runs while no write is in
+   progress returns the data layer's record, whether the cache serves it or not *)
+Theorem C16_quiet_read_returns_db : forall s i,
+  PInv s -> p_started s = p_completed s -> nth_error (p_readers s) i = Some RS ->
+  let s' := prun TicketLocked s [AR i; AR i; AR i; AR i; AR i] in
+  nth_error (p_readers s') i = Some (RDone (p_db s)) /\ p_db s' = p_db s.
+Proof. exact quiet_read_returns_db. Qed.
+Print Assumptions C16_quiet_read_returns_db.
+
+(* the same for tasks (sequences of reads and writes) parked and released at the data layer's calls -
+   the executions the correspondence harness drives on the real storage manager *)
+Theorem C16_concurrent_tasks_coherent : forall d rs ws tasks sched,
+  let s := fst (trun TicketLocked d rs ws tasks sched) in
+  p_started s = p_completed s -> p_cache s = None \/ p_cache s = Some (p_db s).
+Proof. exact task_runs_coherent. Qed.
+Print Assumptions C16_concurrent_tasks_coherent.
+
+(* the two weaker protocols are refuted: the code before the fix (K3), and the ticket checked outside
+   the cache's lock *)
+Theorem C16_fill_without_ticket_refuted :
+  let s := prun NoTicket (pinit 0 [false] [1]) k3_schedule in
+  p_started s = p_completed s /\ p_db s = 1 /\ p_cache s = Some 0.
+Proof. exact without_ticket_refuted. Qed.
+Print Assumptions C16_fill_without_ticket_refuted.
+
+Theorem C16_check_outside_lock_refuted :
+  let s := prun TicketSplit (pinit 0 [false] [1]) split_schedule in
+  p_started s = p_completed s /\ p_db s = 1 /\ p_cache s = Some 0.
+Proof. exact split_check_refuted. Qed.
+Print Assumptions C16_check_outside_lock_refuted.
